@@ -98,13 +98,25 @@ def is_selfconn(st, d, v):
 TRUSTED = [
     "Coq 8.16.1 kernel + vm_compute (no native_compute)",
     "Bignums/Uint63 primitives for the executed instance BQCf (theorems are generic and closed)",
-    "hand-written model Solve.v/Network.v tied to /repo by this correspondence run (sampled)",
+    "hand-written model Solve.v/Network.v tied to /repo (a) for the index bookkeeping around the star product — "
+    "Structure.sel_output / sel_input / split_in_out / get_S_back — for ALL matrices and pin lists by the translation obligation: "
+    "harness/translate_join.py (trusted, fail-closed, pattern-based over the ast) emits the blocks / reassembly / selection the "
+    "current source computes and coq/templates/JoinSrcProof.v proves them equal to Solve.part / Solve.assemble / positions in "
+    "ins ++ outs / Solve.keep; (b) by this correspondence run (sampled), which covers the rest of Structure.join and the loop",
+    "translator's reading of numpy: A[:, i, j] = B[:, r, c] copies entry (r, c) of every slice; np.concatenate on the last / "
+    "second-to-last axis puts blocks side by side / on top of each other",
     "harness: netlist generator, construction through the public API, float->dyadic transport, emitter, parser",
     "numpy (matmul/inv/concatenate/indexing) exercised, not verified",
 ]
 
 if __name__ == "__main__":
+    import translate_join
+    from common import source_obligation
     main("C01", [NetStream()],
+         source_obligations=[source_obligation(
+             "JoinSrc_C01", translate_join.translate, "JoinSrcProof.v",
+             ["split_src_is_part", "back_src_is_assemble", "back_index_is_position", "sel_out_src_is_keep",
+              "sel_in_src_is_keep"])],
          level_text="props/C01.v: for every netlist and every schedule, if the model of the elimination loop returns a "
                     "result then every solution of the network equations obeys the reported matrix (solve_sound), and "
                     "solutions exist for every excitation (solve_complete); the model refuses a result when a connection "
